@@ -252,6 +252,54 @@ func (c *Ctx) smtInst(o *Obligation) (string, bool) {
 		cands[t] = true
 		cands["(- "+t+" 1)"] = true
 	}
+	// integer-valued program variables (loop counters, indices) mentioned by the goal or its guard
+	{
+		intSyms := map[string]bool{}
+		defBody := map[string]string{}
+		var declOrder []string
+		scan := func(l string) {
+			if strings.HasPrefix(l, "(declare-const |") && strings.HasSuffix(l, " Int)") {
+				intSyms[l[len("(declare-const "):len(l)-len(" Int)")]] = true
+				declOrder = append(declOrder, l[len("(declare-const "):len(l)-len(" Int)")])
+			} else if strings.HasPrefix(l, "(define-fun |") {
+				if k := strings.Index(l, "| () Int "); k > 0 {
+					intSyms[l[len("(define-fun "):k+1]] = true
+				}
+				if k := strings.Index(l, "| () "); k > 0 && len(l) < 4000 {
+					defBody[l[len("(define-fun "):k+1]] = l[k+5:]
+				}
+			}
+		}
+		for _, d := range c.decls {
+			scan(d)
+		}
+		for _, l := range c.body[:o.Prefix] {
+			scan(l)
+		}
+		text := goal + " " + strings.Join(ghyps, " ") + " " + o.Guard.S
+		n := 0
+		_ = declOrder
+		seenSym := map[string]bool{}
+		frontier := symbolsIn(text)
+		for depth := 0; depth < 3 && len(frontier) > 0; depth++ {
+			var next []string
+			for _, sym := range frontier {
+				if seenSym[sym] {
+					continue
+				}
+				seenSym[sym] = true
+				if intSyms[sym] && !cands[sym] && n < 24 && !strings.HasPrefix(sym, "|sk!") && isProgramVar(sym) {
+					cands[sym] = true
+					cands["(+ "+sym+" 1)"] = true
+					n++
+				}
+				if body, ok := defBody[sym]; ok {
+					next = append(next, symbolsIn(body)...)
+				}
+			}
+			frontier = next
+		}
+	}
 	var cs []string
 	for k := range cands {
 		cs = append(cs, k)
@@ -313,4 +361,22 @@ func selectIndexTermsAll(s string) []string {
 		}
 	}
 	return out
+}
+
+// isProgramVar: the symbol names an SSA value of the function (|fn.tN!k|) or a parameter (|p.x!k|)
+// — as opposed to the engine's own bookkeeping constants (allocation counters, capacities, ..).
+func isProgramVar(sym string) bool {
+	if strings.HasPrefix(sym, "|p.") {
+		return true
+	}
+	k := strings.LastIndex(sym, ".t")
+	if k < 0 {
+		return false
+	}
+	rest := sym[k+2:]
+	j := 0
+	for j < len(rest) && rest[j] >= '0' && rest[j] <= '9' {
+		j++
+	}
+	return j > 0 && j < len(rest) && rest[j] == '!'
 }
